@@ -1,5 +1,5 @@
 """C10 - delimited streams (S1-S4)."""
-from . import decode
+from . import decode, varint
 from .c09 import rule_L5, rule_L1, rule_L2, rule_L3
 
 PROP = "C10"
@@ -16,6 +16,6 @@ RULE_TEXT = "obligation = (rule, construct); evaluations = abstract states visit
 
 def run(ctx) -> None:
     for name, fn in (("S1", decode.rule_S1), ("S2", decode.rule_S2), ("S3", decode.rule_S3), ("S4/M3", decode.rule_M3),
-                     ("M3b", decode.rule_M3b), ("L5", rule_L5), ("L1", rule_L1), ("L2", rule_L2), ("L3", rule_L3)):
+                     ("M3b", decode.rule_M3b), ("N3", varint.rule_N3), ("L5", rule_L5), ("L1", rule_L1), ("L2", rule_L2), ("L3", rule_L3)):
         ctx.rules_run.append(name)
         fn(ctx)
